@@ -585,6 +585,26 @@ func (e histEngine) f1(p *HistPlan, m *cors.Middleware, cur int, st HStep, label
 	if d := diffObs(before, after, suite, true); d != "" {
 		return &Violation{Class: "state-changed", Key: "rejected-reconfigure", Detail: fmt.Sprintf("%s: after rejected Reconfigure(%s): %s", label, bad, d)}
 	}
+	// the literal `cfg := m.Config(); cfg.Origins[i] = <bad>; m.Reconfigure(cfg)` flow (seeded change
+	// w42-C08: a "same as what Config() handed out" fast path whose remembered copy shares its slices
+	// with the caller's): the value Config() returned is edited IN PLACE, one element, and fed back.
+	if st.FromCurrent {
+		if own := m.Config(); own != nil && len(own.Origins) > 0 {
+			i := int(p.Perm>>3) % len(own.Origins)
+			own.Origins[i] = badOrigins[int(p.Perm>>11)%len(badOrigins)]
+			c.hit("F1_config_value_edited_in_place")
+			if err := reconfN(m, own); err == nil {
+				return &Violation{Class: "accepted-invalid", Key: fromConfig(own).String(), Detail: fmt.Sprintf("%s: cfg := m.Config(); cfg.Origins[%d] = %q; m.Reconfigure(cfg) returned nil", label, i, own.Origins[i])}
+			}
+			after2, pan := observeMW(m, suite)
+			if pan != "" {
+				return &Violation{Class: "panic", Key: "observe", Detail: label + ": " + pan}
+			}
+			if d := diffObs(before, after2, suite, true); d != "" {
+				return &Violation{Class: "state-changed", Key: "rejected-reconfigure", Detail: fmt.Sprintf("%s: after rejected Reconfigure of an in-place edited Config() value: %s", label, d)}
+			}
+		}
+	}
 	// the rejected call landing INSIDE the request stream: request, rejected Reconfigure, the
 	// same request again, at positions derived from the plan. The two full passes above start
 	// from the same point of the suite, so anything the library might (wrongly) carry from
